@@ -159,7 +159,7 @@ def _reduced_axes(pipeline: Pipeline) -> dict[str, set[str]]:
     for name in pipeline.mapspec_names:
         for func in pipeline.functions:
             if _is_parameter_reduced_by_function(func, name):
-                reduced_axes[name].update(axes[name])
+                reduced_axes[name].update(axes.get(name, ()))  # no entry: only ever indexed by `:`
             elif _is_parameter_partially_reduced_by_function(func, name):
                 _axes = _get_partially_reduced_axes(func, name, axes)
                 reduced_axes[name].update(_axes)
@@ -186,4 +186,4 @@ def _get_partially_reduced_axes(
 ) -> tuple[str, ...]:
     assert func.mapspec is not None
     spec = next(spec for spec in func.mapspec.inputs if spec.name == name)
-    return tuple(ax for ax, spec_ax in zip(axes[name], spec.axes) if spec_ax is None)
+    return tuple(ax for ax, spec_ax in zip(axes.get(name, ()), spec.axes) if spec_ax is None)
